@@ -13,11 +13,17 @@
   exactly that payload, under either oneof order. base64, decimal, `math.Int` and enum spellings are inverted
   by the decoders for every value (`Lemmas/Encode.lean`).
 -/
+import Orbiter.Expect
 import Orbiter.Lemmas.NoPanic
 import Orbiter.Lemmas.Encode
 import Orbiter.Lemmas.JsonText
 namespace Orbiter.C15
 open Orbiter
+
+/-- Coverage obligation: the messages of the payload (wrapper, payload, action, forwarding, the four attribute types, fee
+entries) have, in the descriptors of the built code, exactly the fields — proto names, JSON names, kinds, oneof membership —
+the model's decoders and marshaller were written against. -/
+theorem pin_payload_fields : Gen.payloadFields = modelPayloadFields := by decide
 
 /-- Coverage obligation: the registered attribute types are the four the decoder resolves, each under the
 interface the model files it under (the facts probe `UnpackAny` per interface on the built registry). -/
